@@ -115,3 +115,45 @@ def opRegistry (j : Json) : R Json := do
   pure (Json.mkObj [("ok", .arr qs.toArray)])
 
 end Drv
+
+namespace Drv
+open Dds Lean
+
+def decReq (j : Json) : R Req := do
+  match (← asArr j).toList with
+  | [.str "store", .str k] => pure (.store k)
+  | [.str "sync", l, .str k] => pure (.sync (← asStrList l) k)
+  | _ => .error "bad request"
+
+def diskJson (d : Disk) : Json :=
+  Json.mkObj [("blobs", .arr (d.blobs.map (fun kv => Json.str kv.1)).toArray),
+              ("metas", .arr (d.metas.map (fun kv => Json.str kv.1)).toArray),
+              ("links", .arr (d.links.map (fun kv => Json.arr #[.arr (kv.1.map Json.str).toArray, .str kv.2])).toArray)]
+
+/-- {"op":"schedule","init":{"blobs":[k…],"links":[[loc,k]…]},"procs":[[req…]…],"schedule":[i…]}:
+the published part of the disk after every step of the schedule -/
+def opSchedule (j : Json) : R Json := do
+  let init ← fld j "init"
+  let ks ← asStrList (← fld init "blobs")
+  let ls ← (← fldArr init "links").toList.mapM (fun x => do
+    match (← asArr x).toList with
+    | [l, .str k] => pure ((← asStrList l), k)
+    | _ => .error "bad link")
+  let V : Truth := { content := fun k => (k ++ "#content").toUTF8.data.toList, metaOf := fun _ => "local.string" }
+  let d0 : Disk := { blobs := ks.map (fun k => (k, V.content k)), metas := ks.map (fun k => (k, V.metaOf k)), links := ls }
+  let procs ← (← fldArr j "procs").toList.mapM (fun p => do (← asArr p).toList.mapM decReq)
+  let ps : List Proc := (procs.zipIdx).map (fun (rs, i) => { id := i, reqs := rs })
+  let sched ← decNatList' (← fld j "schedule")
+  let mut s : Sys := ⟨d0, ps⟩
+  let mut outs : Array Json := #[diskJson s.disk]
+  for i in sched do
+    s := s.stepAt V i
+    outs := outs.push (diskJson s.disk)
+  pure (Json.mkObj [("ok", .arr outs), ("done", .arr (s.procs.map (fun p => Json.bool (p.idx ≥ p.reqs.length))).toArray)])
+where
+  decNatList' (j : Json) : R (List Nat) := do
+    (← asArr j).toList.mapM (fun x => match x with
+      | .num n => pure n.mantissa.toNat
+      | _ => .error "nat expected")
+
+end Drv
